@@ -1475,6 +1475,8 @@ def _fold_private_records(fn, records):
                 if isinstance(p_, ast.Assign) and p_.value is n and len(p_.targets) == 1 and isinstance(p_.targets[0], ast.Tuple) and len(p_.targets[0].elts) == len(fnames) \
                         and all(isinstance(t, ast.Name) for t in p_.targets[0].elts):
                     continue
+                if isinstance(p_, ast.For) and p_.iter is n:
+                    continue  # iterating a named tuple visits its fields in order
                 cands.pop(name, None)
                 break
     if not cands:
@@ -1513,6 +1515,9 @@ def _fold_private_records(fn, records):
                 for t, (f, _d) in zip(st.targets[0].elts, cands[name][1]):
                     out.append(ast.copy_location(ast.Assign(targets=[t], value=ast.Name(id=f"{name}__{f}", ctx=ast.Load()), lineno=st.lineno), st))
                 continue
+            if isinstance(st, ast.For) and isinstance(st.iter, ast.Name) and st.iter.id in cands:
+                name = st.iter.id
+                st.iter = ast.copy_location(ast.Tuple(elts=[ast.Name(id=f"{name}__{f}", ctx=ast.Load()) for f, _d in cands[name][1]], ctx=ast.Load()), st.iter)
             out.append(R().visit(st))
         return out
 
@@ -1719,6 +1724,59 @@ class _MembershipInModuleTuple(ast.NodeTransformer):
         return node
 
 
+def _unroll_literal_loops(fn):
+    """for v in (a, b, c): BODY   ->   v__u1 = a; BODY[v := v__u1]; v__u2 = b; BODY[v := v__u2]; ...
+    for a display of at most 6 names / attribute chains / constants, a body of at most 6 statements without break / continue / nested
+    definitions that does not rebind any name of the display, and a loop variable that is not read after the loop."""
+    counter = [0]
+    params = {a.arg for a in ast.walk(fn.args) if isinstance(a, ast.arg)}
+
+    def scan(stmts):
+        out: List[ast.stmt] = []
+        for k, st in enumerate(stmts):
+            for field in ("body", "orelse", "finalbody"):
+                sub = getattr(st, field, None)
+                if isinstance(sub, list) and sub and isinstance(sub[0], ast.stmt) and not isinstance(st, FDEFS + (ast.ClassDef,)):
+                    setattr(st, field, scan(sub))
+            if isinstance(st, ast.Try):
+                for hd in st.handlers:
+                    hd.body = scan(hd.body)
+            if isinstance(st, ast.For) and not st.orelse and isinstance(st.target, ast.Name) and isinstance(st.iter, (ast.Tuple, ast.List)) and 1 <= len(st.iter.elts) <= 6 \
+                    and all(isinstance(e, ast.Constant) or _plain_chain(e) for e in st.iter.elts) and len(st.body) <= 6 and st.target.id not in params:
+                v = st.target.id
+                names_in_display = {n.id for e in st.iter.elts for n in ast.walk(e) if isinstance(n, ast.Name)}
+                bad = False
+                for n in ast.walk(ast.Module(body=st.body, type_ignores=[])):
+                    if isinstance(n, (ast.Break, ast.Continue, ast.Lambda, ast.Yield, ast.YieldFrom, ast.Await, ast.Global, ast.Nonlocal)) or isinstance(n, FDEFS + (ast.ClassDef,)):
+                        bad = True
+                    if isinstance(n, ast.Name) and isinstance(n.ctx, (ast.Store, ast.Del)) and n.id in names_in_display and n.id != v:
+                        bad = True
+                    if isinstance(n, (ast.ListComp, ast.SetComp, ast.DictComp, ast.GeneratorExp)) and any(isinstance(x, ast.Name) and x.id == v for x in ast.walk(n)):
+                        bad = True
+                if v in names_in_display:
+                    bad = True
+                later = stmts[k + 1:]
+                if any(isinstance(n, ast.Name) and n.id == v for s_ in later for n in ast.walk(s_)):
+                    bad = True
+                if not bad:
+                    for e in st.iter.elts:
+                        counter[0] += 1
+                        nv = f"{v}__u{counter[0]}"
+                        out.append(ast.copy_location(ast.Assign(targets=[ast.Name(id=nv, ctx=ast.Store())], value=copy.deepcopy(e), lineno=st.lineno), st))
+
+                        class R(ast.NodeTransformer):
+                            def visit_Name(self, n, nv=nv):
+                                if n.id == v:
+                                    return ast.copy_location(ast.Name(id=nv, ctx=n.ctx), n)
+                                return n
+                        out.extend(R().visit(copy.deepcopy(b)) for b in st.body)
+                    continue
+            out.append(st)
+        return out
+
+    fn.body = scan(fn.body)
+
+
 def normalise_module(module_name: str, tree: ast.Module, multiply_defined: frozenset = frozenset()) -> ast.Module:
     mt: Dict[str, ast.Tuple] = {}
     counts: Dict[str, int] = {}
@@ -1760,6 +1818,9 @@ def normalise_module(module_name: str, tree: ast.Module, multiply_defined: froze
         for n in ast.walk(tree):
             if isinstance(n, FDEFS):
                 _fold_private_records(n, records)
+    for n in ast.walk(tree):
+        if isinstance(n, FDEFS):
+            _unroll_literal_loops(n)
     tree.body = _split_tuple_assigns(tree.body)
     if had_helpers or records:
         for n in ast.walk(tree):
